@@ -395,10 +395,21 @@ def run(tier, seed):
             for c in sites:
                 for k, src in enumerate(c.ops[1:], 1):
                     from_hdr = None
-                    for sv, fs in F.sources(src):
-                        for fld in ("path", "filename"):
-                            if M.match(("load", ("field", HDR, fld, ANY)), sv, {}) is not None:
-                                from_hdr = fld
+                    # the string the copy starts in: the pointer itself (a cursor walked over the slashes) or the base of `s + i`
+                    roots = [src]
+                    x_ = src
+                    for _ in range(4):
+                        dx = fn.defn(M.strip(x_, ("bitcast",)))
+                        if dx is not None and not dx.is_param and dx.op == "getelementptr":
+                            x_ = dx.ops[0]
+                            roots.append(x_)
+                            continue
+                        break
+                    for rt in roots:
+                        for sv, fs in F.sources(rt):
+                            for fld in ("path", "filename"):
+                                if M.match(("load", ("field", HDR, fld, ANY)), sv, {}) is not None:
+                                    from_hdr = fld
                     if from_hdr is None:
                         continue        # extract_path, "/" and the like
                     n += 1
@@ -406,8 +417,48 @@ def run(tier, seed):
                     f = None
                     if xmod.callee_cname(c) in ("strcat", "strcpy", "stpcpy") and sp[0] == "v":
                         f, _ = M.find_fact(("ne", ("load", ("inst", sp[1])), ord("/")), F.at_inst(c))
+                        if f is None:
+                            # s + i after `while (i < strlen(s) && s[i] == '/') ++i;`: the scan is left over one of two edges - the byte at i is
+                            # not a '/', or i has reached strlen(s) of this very string (counting up by one from 0), where the terminator stands
+                            dg0 = fn.defn(sp)
+                            if dg0 is not None and not dg0.is_param and dg0.op == "getelementptr":
+                                idx0 = [st_["idx"] for st_ in dg0.steps if "idx" in st_]
+                                base0 = M.strip(dg0.ops[0], ("bitcast",))
+                                if len(idx0) == 1 and idx0[0][0] == "v":
+                                    iv = fn.defn(M.strip(idx0[0]))
+                                    counted = iv is not None and not iv.is_param and iv.op == "phi" and \
+                                        all((is_const(v_) and const_val(v_) == 0) or M.match(("bin", "add", ("inst", iv.id), 1), v_, {}) is not None for v_, _ in iv.incoming)
+                                    blk = c.block.id
+                                    for _ in range(4):
+                                        if len(fn.blocks[blk].preds) == 1 and len(fn.blocks[fn.blocks[blk].preds[0]].succs) == 1:
+                                            blk = fn.blocks[blk].preds[0]
+                                        else:
+                                            break
+                                    edges_in = [(pb_, blk) for pb_ in fn.blocks[blk].preds]
+                                    def edge_ok(pb_, b_):
+                                        fs_ = F.on_edge(pb_, b_)
+                                        if M.find_fact(("ne", ("load", ("inst", sp[1])), ord("/")), fs_)[0] is not None:
+                                            return True
+                                        for q in fs_:
+                                            if q[0] in ("uge", "eq") and M.strip(q[1]) == M.strip(idx0[0]):
+                                                dl = fn.defn(M.strip(q[2])) if not is_const(q[2]) else None
+                                                if dl is not None and not dl.is_param and dl.op == "call" and xmod.callee_cname(dl) == "strlen" and \
+                                                        M.strip(dl.ops[0], ("bitcast",)) == base0 or (dl is not None and not dl.is_param and dl.op == "call" and xmod.callee_cname(dl) == "strlen" and M.equiv(M.strip(dl.ops[0], ("bitcast",)), base0)):
+                                                    return True
+                                        return False
+                                    if counted and edges_in and all(edge_ok(pb_, b_) for pb_, b_ in edges_in):
+                                        f = ("ne", "s[i] after the bounded slash scan", ord("/"))
+                        if f is None:
+                            # s + strspn(s, "/"): by the meaning of strspn the byte there is not a '/'
+                            dg = fn.defn(sp)
+                            if dg is not None and not dg.is_param and dg.op == "getelementptr":
+                                idx = [st_["idx"] for st_ in dg.steps if "idx" in st_]
+                                dc = fn.defn(M.strip(idx[0])) if len(idx) == 1 and idx[0][0] == "v" else None
+                                if dc is not None and not dc.is_param and dc.op == "call" and xmod.callee_cname(dc) == "strspn" and len(dc.ops) >= 2 and \
+                                        M.strip(dc.ops[0], ("bitcast",)) == M.strip(dg.ops[0], ("bitcast",)) and (xmod.const_string(dc.ops[1]) or b"").split(b"\0")[0] == b"/":
+                                    f = ("ne", "s[strspn(s, \"/\")]", ord("/"))
                     rep.check(rid, f is not None, "%s: %s(result, p) with *p != '/' (header->%s)" % (fn.cname, xmod.callee_cname(c), from_hdr), c.where(),
-                              "facts: %s" % sorted(describe_fact(fn, x) for x in F.at_inst(c))[:8] if f is None else describe_fact(fn, f), function="file_full_path", obj="copy-%s" % from_hdr)
+                              "facts: %s" % sorted(describe_fact(fn, x) for x in F.at_inst(c))[:8] if f is None else (describe_fact(fn, f) if not isinstance(f[1], str) else "%s != '/'" % f[1]), function="file_full_path", obj="copy-%s" % from_hdr)
         rep.check(rid, n >= 2 and n % 2 == 0, "both header strings are appended after the skip (in every inlined copy of file_full_path)", "src/extract.c",
                   "%d header-derived copy sites in %s" % (n, sorted(hosts)), function="file_full_path", obj="sites")
 
